@@ -444,8 +444,26 @@ fn run_persist(seed: u64, dim: usize, metric: u8, ops: &[VOp], rep: &mut RunRepo
                     }
                 }
                 // still usable
-                let _ = h2.insert(9999, vec_from(1, dim, 2.0).iter().map(|x| bf16::from_f32(*x)).collect(), 5);
+                let added = h2.insert(9999, vec_from(1, dim, 2.0).iter().map(|x| bf16::from_f32(*x)).collect(), 5).is_ok();
                 block(h2.flush(6)).map_err(|e| violation!("c12.no-progress", "{ctx}: flush after recovery failed: {e:?}"))?;
+                // ...and what the recovered index held survives its own next flush
+                // (which also purges what the loaded metadata says is removed) and
+                // a clean round trip
+                let want = h2.stats().num_elements as usize;
+                let storage3 = storage_for(&st).map_err(|e| violation!("c12.load-error", "{ctx}: storage connect failed: {e}"))?;
+                let h3 = block(Hnsw::bootstrap("v".to_string(), storage3)).map_err(|e| violation!("c12.lost-after-recovery-flush", "{ctx}: after the recovered index flushed once more, loading it again failed: {e:?}"))?;
+                let got = h3.stats().num_elements as usize;
+                if got != want || want != n_el + added as usize {
+                    return Err(violation!("c12.lost-after-recovery-flush", "{ctx}: the recovered index held {n_el} vectors (+{} added), {want} after its next flush, and {got} after a clean reload", added as usize));
+                }
+                let mut live3 = live.clone();
+                live3.entry(9999).or_default().push(vec_from(1, dim, 2.0));
+                for q in queries(&mut qrng, dim, new).into_iter().take(2) {
+                    let k = got + 1;
+                    let res = h3.try_search(&q, k).map_err(|e| violation!("c12.lost-after-recovery-flush", "{ctx}: search after the round trip failed: {e:?}"))?;
+                    check_sound(&res, k, &q, metric_e, &live3, &format!("{ctx} (after the next flush and a clean reload) k={k}"))?;
+                }
+                rep.probe("recovered_then_flushed_then_reloaded", 1);
             }
             Err(e) => {
                 if mk != 0 {
